@@ -1,6 +1,7 @@
 import ConfModel.Driver.Common
 import ConfModel.Model.Delimited
 import ConfModel.Spec.Framing
+import ConfModel.Model.SyncPipe
 namespace ConfModel.Driver.C09
 open Lean ConfModel.Driver ConfModel.Delimited ConfModel.Framing
 
@@ -98,11 +99,57 @@ def siteHandle (inp impl : Json) : Verdict :=
     cls := "site:" ++ (if cliUsed then "client:" ++ str (field cli "err") else "server:" ++ str (field srv "err")),
     why := if !h1 then w1 else if !h2 then w2 else if !(a1 && a2 && reach) then "implementation differs from the model" else "" }
 
+/-! ### op "pipe": the real reader over real pipes with write boundaries -/
+
+/-- frame ends of the messages among the results, from offset `off` -/
+def endsOf : Nat → List Res → List Nat
+  | off, .msg b :: t => (off + 4 + b.length) :: endsOf (off + 4 + b.length) t
+  | _, _ => []
+
+def pipeHandle (inp impl : Json) : Verdict :=
+  let writes := (strList (field inp "writes")).map unhex
+  let expect := natList (field inp "expect")
+  let max := nat (field inp "max")
+  let count := nat (field inp "count")
+  let closed := str (field inp "end") == "close"
+  let eb := str (field inp "kind") == "io"
+  let d := writes.flatten
+  -- the generator's claim "so many messages are complete after write i" against the declarative cut
+  let expectOK := (List.range writes.length).all fun i =>
+    (frames max count (writes.take (i + 1)).flatten).1.length == expect.getD i 0
+  if !expectOK || expect.length != writes.length then bad "pipe: the generator's expect list is not the model's" else
+  if bool (field impl "overtaken") then
+    { agree := true, holds := true, nontrivial := false, cls := "pipe:set-aside" } else
+  let out := SyncPipe.readAll true max count (SyncPipe.Pipe.fresh writes (if closed then .closed else .stall) eb)
+  let mRes := out.results.map (showRes max)
+  let iRes := (arr (field impl "results")).map showImpl
+  let iAfter := natList (field impl "after")
+  let hang := bool (field impl "hang")
+  let late := natList (field impl "late")
+  let timely := bool (field impl "timely")
+  let specRes := expected max count d (if closed then .eofSeparate else .stall)
+  let spec := specRes.map (showRes max)
+  let nMsgs := (specRes.filter Res.isMsg).length
+  let need := (endsOf 0 specRes).map (SyncPipe.needed writes)
+  -- every message was returned before the writer had to go on: after[i] ≤ needed writes (end of frame i)
+  let prompt := (List.range nMsgs).all fun i => iAfter.getD i (writes.length + 1) ≤ need.getD i 0
+  let holds := !hang && iRes == spec && prompt && late.isEmpty && timely
+  let agree := !hang && iRes == mRes && iAfter.take nMsgs == out.mets.take nMsgs && late.isEmpty
+  { agree := agree, holds := holds, nontrivial := !d.isEmpty,
+    cls := "pipe:" ++ str (field inp "kind") ++ ":" ++ ((lastD spec "none").splitOn ":").head!,
+    model := Json.mkObj [("results", toJson mRes), ("mets", toJson out.mets)],
+    why := if holds then (if agree then "" else "implementation differs from the model") else
+      (if hang then s!"pipe: the reader had not returned 6 s after the end of the time-out period ({nat (field inp "timeoutMs")} ms) — it never does; returned before: {iRes}; must report {spec}"
+       else if iRes != spec then s!"pipe: expected {spec}, got {iRes}"
+       else if !prompt || !late.isEmpty then s!"pipe: a complete message was not returned until the peer wrote again (or closed): returned after write {iAfter.take nMsgs}, complete after write {need}; writer's patience ran out after write(s) {late}"
+       else s!"pipe: the time-out did not come within [period, period + 5 s]") }
+
 def handle : Handler := fun op inp impl =>
   if !(isNull (field impl "panic")) then
     { agree := false, holds := false, why := "panic: " ++ str (field impl "panic") } else
   match op with
   | "site" => siteHandle inp impl
+  | "pipe" => pipeHandle inp impl
   | "read" =>
     let data := unhex (str (field inp "bytes"))
     let caps := natList (field inp "caps")
